@@ -65,7 +65,10 @@ def coerce_int(maybe_int: _ScalarValue) -> int:
     if isinstance(maybe_int, int):
         numeric = maybe_int
     elif isinstance(maybe_int, float):
-        numeric = int(maybe_int)
+        try:
+            numeric = int(maybe_int)
+        except (OverflowError, ValueError):  # inf, nan
+            raise ValueError(INVALID_INT % maybe_int)
         if numeric != maybe_int:
             raise ValueError(INVALID_INT % maybe_int)
     elif maybe_int is None:
@@ -106,6 +109,10 @@ def coerce_float(maybe_float: _ScalarValue) -> float:
 
     try:
         numeric = float(maybe_float)
+    except OverflowError:
+        raise ValueError(
+            "Float cannot represent non finite value: %s" % maybe_float
+        )
     except ValueError:
         raise ValueError(
             "Float cannot represent non numeric value: %s" % maybe_float
